@@ -12,10 +12,14 @@ import (
 	"go/types"
 	"net/textproto"
 	"os"
+	"regexp"
 	"runtime/debug"
 	"strconv"
 	"strings"
 )
+
+// symbols that are only meaningful inside a binder (let, quantifier, definition parameter)
+var reLocalSym = regexp.MustCompile(`(^|[ (])(m![0-9]|q\$|d\$)`)
 
 type specErr struct{ msg string }
 
@@ -815,6 +819,15 @@ func fieldOf(e *Enc, st *State, base *T, name string) *T {
 		h := st.get(fieldHeap(owner, name), arrSort(sRef, fs))
 		r := sel(h, base, fs)
 		r.GoT = ft
+		if fs.Kind == KRef && strings.HasPrefix(h.S, "H0$") && !reLocalSym.MatchString(base.S) {
+			// well-formed entry heap: an object that existed at entry only refers to objects that existed at entry
+			key := "wf:" + r.S
+			if !e.declSeen[key] {
+				e.declSeen[key] = true
+				n0 := e.entryHeap(allocHeap, sInt)
+				e.assume(mk(sapp("=>", sapp("and", sapp("<", base.S, n0.S), sapp(">", base.S, "0")), sapp("and", sapp(">=", r.S, "0"), sapp("<", r.S, n0.S))), sBool))
+			}
+		}
 		return r
 	}
 	so := e.sortOf(bt)
